@@ -6,6 +6,7 @@
    round-trip properties C01/C02 for one type); F01 is the class where that premise is false. *)
 From PV Require Import Base.Bytes Model.Types Model.Enc Model.Dec Model.OpenType Proofs.OpenType Proofs.OpenTypeWitness.
 From PV Require Import Model.OpenTypeDef Proofs.OpenTypeDef.
+From PV Require Import Model.OpenTypeMap Proofs.OpenTypeMap.
 Local Open Scope N_scope.
 
 (* ---- with resolution off, or an unmapped governing value, the member holds exactly the complete
@@ -305,3 +306,47 @@ Example C18_example_defaulted_governing_set_of_der :
      = Ok (DV (TSet [(Def (VInt 1), TInt); (Req, TSetOf Pt)]) (VRec [Some (VInt 1); Some (VList [pt])]), []).
 Proof. exact ex_defaulted_set_of_der. Qed.
 Print Assumptions C18_example_defaulted_governing_set_of_der.
+
+(* ---- the declared type map is the caller's dict itself, consulted as it is at decode time
+        (Model/OpenTypeMap.v: map_now m0 history; the harness hands the decoder model that map) ---- *)
+
+(* whatever the dict held when the type was defined - nothing, in the usual schema module - a value
+   registered afterwards resolves, and one removed afterwards does not *)
+Theorem C18_registered_later_resolves : forall m0 ops g t, gov_eqb g g = true ->
+  resolve_type [] (map_now m0 (ops ++ [MSet g t])) g = Some t.
+Proof. exact registered_later_resolves. Qed.
+Print Assumptions C18_registered_later_resolves.
+
+Theorem C18_removed_later_unmapped : forall m0 ops g,
+  resolve_type [] (map_now m0 (ops ++ [MDel g])) g = None.
+Proof. exact removed_later_unmapped. Qed.
+Print Assumptions C18_removed_later_unmapped.
+
+(* a write concerns its own key only *)
+Theorem C18_write_leaves_other_keys : forall m g t g', gov_eqb g' g = false ->
+  omap_find g' (map_step m (MSet g t)) = omap_find g' m /\ omap_find g' (map_step m (MDel g)) = omap_find g' m.
+Proof. intros m g t g' H. split; [exact (find_after_set_other m g t g' H) | exact (find_after_del_other m g g' H)]. Qed.
+Print Assumptions C18_write_leaves_other_keys.
+
+(* OpenType objects made over one dict at different moments show the same content *)
+Theorem C18_views_agree : forall m0 h1 h2 h1' h2', h1 ++ h2 = h1' ++ h2' -> view_of m0 h1 h2 = view_of m0 h1' h2'.
+Proof. exact views_agree. Qed.
+Print Assumptions C18_views_agree.
+
+Example C18_example_defined_empty_then_filled :
+  dec_open_live BER TL1 0 1 [] [MSet (VInt 3) Pt] [] true [48;11;2;1;3;48;6;2;1;3;2;1;252]
+    = Ok (DV (TSeq [(Req, TInt); (Req, Pt)]) (VRec [Some (VInt 3); Some pt]), [])
+  /\ dec_open_live BER TL1 0 1 [] [] [] true [48;11;2;1;3;48;6;2;1;3;2;1;252]
+    = Ok (DV TL1 (VRec [Some (VInt 3); Some (VAny [48;6;2;1;3;2;1;252])]), [])
+  /\ dec_open_live DER TL2 0 1 [] [MSet (VInt 5) TNull; MSet (VInt 3) Pt] [] true [49;15;2;1;3;49;10;163;8;48;6;2;1;3;2;1;252]
+    = Ok (DV (TSet [(Req, TInt); (Req, TSetOf Pt)]) (VRec [Some (VInt 3); Some (VList [pt])]), []).
+Proof. exact ex_defined_empty_then_filled. Qed.
+Print Assumptions C18_example_defined_empty_then_filled.
+
+Example C18_example_replaced_and_removed :
+  dec_open_live BER TL1 0 1 [(VInt 3, TOcts)] [MSet (VInt 3) Pt] [] true [48;11;2;1;3;48;6;2;1;3;2;1;252]
+    = Ok (DV (TSeq [(Req, TInt); (Req, Pt)]) (VRec [Some (VInt 3); Some pt]), [])
+  /\ dec_open_live BER TL1 0 1 [(VInt 3, Pt)] [MDel (VInt 3)] [] true [48;11;2;1;3;48;6;2;1;3;2;1;252]
+    = Ok (DV TL1 (VRec [Some (VInt 3); Some (VAny [48;6;2;1;3;2;1;252])]), []).
+Proof. exact ex_replaced_and_removed. Qed.
+Print Assumptions C18_example_replaced_and_removed.
